@@ -167,6 +167,17 @@ mut("c15-context-plain-global", MM, "        class _Data(threading.local):", "  
 mut("c15-context-only-in-importing-thread", MM, "        class _Data(threading.local):\n            # Class attribute is the default for threads other than the one that imported this module\n            context: ContextInjectionType = None\n\n        data = _Data()",
     "        data = threading.local()\n        data.context: ContextInjectionType = None", ["C15"])
 mut("c15-shared-type-style-mutated", MB, "        resolved_types_style = copy.deepcopy(self.default_types_style)", "        resolved_types_style = self.default_types_style", ["C15"])
+# ---- C16 ----------------------------------------------------------------------------------------------
+mut("c16-legacy-list-before-model", CLI, "        models = list(models) + list(models_lists)", "        models = list(models_lists) + list(models)", ["C16"])
+mut("c16-extend-to-append", CLI, "                models_dict[model_name].extend(iterator)", "                models_dict[model_name].extend(list(iterator)[:3])", ["C16"])
+mut("c16-max-literals-ignored", CLI, "            max_literals=self.max_literals\n", "            max_literals=GenericModelCodeGenerator.DEFAULT_MAX_LITERALS if self.max_literals > 1 else self.max_literals\n", ["C16"])
+mut("c16-dkf-ignored", CLI, "        self.dict_keys_fields = dict_keys_fields or ()", "        self.dict_keys_fields = ()", ["C16"])
+mut("c16-unicode-flag-inverted", CLI, "            convert_unicode=not disable_unicode_conversion,", "            convert_unicode=bool(disable_unicode_conversion),", ["C16"])
+mut("c16-output-file-stripped", CLI, "                f.write(output)", "                f.write(output.strip())", ["C16"])
+mut("c16-lookup-last-component-dropped", CLI, "        if len(split) == 1:\n            return d[split[0]]", "        if len(split) == 1:\n            return d[split[0]] if isinstance(d[split[0]], list) else d", ["C16"])
+mut("c16-strings-converters-ignored-again", CLI, "bool_js_style = lambda s: s if isinstance(s, bool) else", "bool_js_style = lambda s:", ["C16"])
+mut("c16-merge-default-number-dropped", CLI, '            default=["percent", "number"],', '            default=["percent"],', ["C16"])
+mut("c16-ini-values-lowercased", CLI, "        return {s: dict(config.items(s)) for s in config.sections()}", "        return {s: {k: v.lower() for k, v in config.items(s)} for s in config.sections()}", ["C16"])
 # ---- neutral (behaviour preserving) -------------------------------------------------------------------
 mut("neutral-rename-local", G, "        fields_sets = [self._convert(data) for data in data_variants]\n        fields = self.merge_field_sets(fields_sets)",
     "        variants = [self._convert(data) for data in data_variants]\n        fields = self.merge_field_sets(variants)", ["C01", "C02", "C05"], kind="neutral")
